@@ -148,6 +148,13 @@ func (o *OracleC12) AfterCall(n *Node, st *Step) {
 			return
 		}
 	}
+	if n.kind == FAmnesia && n.inc > 1 && (d.ResponseSent() || d.CommitSent() || d.PreCommitSent()) {
+		// a restarted node that recovered its own earlier response or (pre)commit from its
+		// peers has answered the proposal in its previous life (observation O7: it then
+		// ignores the transaction and cannot complete the block by itself)
+		o.s.note("restarted_node_with_recovered_commit")
+		return
+	}
 	o.s.note("all_requested_supplied")
 	o.s.Violate("C12", "no_answer_after_last_transaction", fmt.Sprintf("%s: height %d view %d: all %d requested transactions of proposal %s were supplied, the last one (tx%d) in this call, but the node broadcast neither a prepare response nor a change-view request",
 		n, ob.h, ob.v, len(ob.req), ob.prop, st.Tx.ID), n.id)
